@@ -10,7 +10,7 @@ open Raptor Raptor.Driver
 def rdPer (np : Nat) : Rd (List (List Int)) := (List.range np).mapM fun _ => rdVec
 
 def scenName : Nat → String
-  | 0 => "packages" | 1 => "matops" | 2 => "amg_rs" | 3 => "amg_sa" | _ => "repartition"
+  | 0 => "packages" | 1 => "matops" | 2 => "amg_rs" | 3 => "amg_sa" | 4 => "repartition" | _ => "packages_back_to_back"
 
 def checkSame : Rd Verdict := do
   let scen ← rdNat; let np ← rdNat; let mode ← rdNat; let site ← rdInt; let _perm ← rdNat; let delay ← rdNat
